@@ -18,11 +18,22 @@ import (
 func ScenarioFor(p Property, seed uint64, index int, tier string) *Scenario {
 	r := NewRand(Mix(seed, p.ID(), uint64(index)))
 	sc := p.Generate(r, index, tier)
+	if pg, ok := p.(PostGenerator); ok {
+		// drawn from a separate stream so that the scenario proper does not change when the environment
+		// dimensions are added to or removed from a property
+		pg.PostGenerate(NewRand(Mix(seed^0x656e76, p.ID(), uint64(index))), sc)
+	}
 	sc.Property = p.ID()
 	sc.Seed = seed
 	sc.Index = index
 	sc.Tier = tier
 	return sc
+}
+
+// PostGenerator is implemented by properties whose scenarios get environment dimensions (state of
+// the units the property does not talk about) chosen after generation.
+type PostGenerator interface {
+	PostGenerate(r *Rand, sc *Scenario)
 }
 
 // PanicClassifier is installed by package machine (avoids an import cycle): it tells whether
